@@ -5,6 +5,7 @@ import copy
 
 from vf import absval as av
 from vf.common import Acc, Ctx, h64, to_tuple
+from vf.gen import histories as H
 from vf.gen import values as gv
 from vf.mon.driver import Driver
 from vf.ref import ber, rfc4511
@@ -83,15 +84,16 @@ class Sim:
         k = r.choice(choices)
         mk = self.mark()
         if k == "bind":
-            a = ("bind_simple", "cn=" + mk, "pw", None) if r.random() < 0.5 else ("bind_sasl", "GSSAPI", "cn=" + mk, mk.encode(), None)
+            a = (("bind_simple", "cn=" + mk, r.choice(["pw", "pw", "", None]), H._ctl(r, 0.25)) if r.random() < 0.5 else
+                 ("bind_sasl", r.choice(["GSSAPI", "EXTERNAL", ""]), "cn=" + mk, r.choice([mk.encode(), mk.encode(), b"", None]), H._ctl(r, 0.25)))
         elif k == "search":
             a = ("search", "dc=" + mk, r.choice([0, 1, 2]), r.choice([0, 1, 2, 3]), r.choice([0, 10]), r.choice([0, 30]), r.random() < 0.3,
-                 gv.g_filter(r, gv.SMALL) if r.random() < 0.4 else None, ("cn",), None)
+                 gv.g_filter(r, gv.SMALL) if r.random() < 0.4 else None, r.choice([("cn",), ("cn",), (), None, ("1.1",), ("*", "+", "cn;lang-en")]), H._ctl(r, 0.25))
         else:
             # plain names, names the library's ExtendedOperations enum knows (the driver passes the member itself on odd
             # calls), and other spellings of known names (ordinary names)
             nm = r.choice(["1.2.3", "1.2.3", "1.3.6.1.4.1.1466.20037", "1.3.6.1.4.1.4203.1.11.3", gv.g_lookalike_oid(r)])
-            a = ("extended", nm, mk.encode(), None)
+            a = ("extended", nm, r.choice([mk.encode(), mk.encode(), b"", None]), H._ctl(r, 0.25))
         return self.api("c", a)
 
     def server_call(self):
@@ -118,17 +120,17 @@ class Sim:
             creds = mk.encode() if (code == 14 or r.random() < 0.4) else r.choice([None, b""])
             if code != 14 and creds:
                 self.o("final-bind-response-with-sasl-creds")
-            a = ("bind_response", mid, creds, code, None, mk, None)
+            a = ("bind_response", mid, creds, code, r.choice([None, "", "dc=m"]), mk, H._ctl(r, 0.25))
         elif kind == "search":
             x = r.random()
             if x < 0.5:
-                a = ("entry", mid, "cn=" + mk, (("cn", (mk.encode(),)),), None)
+                a = ("entry", mid, "cn=" + mk, r.choice([(("cn", (mk.encode(),)),), (("cn", ()), ("sn", (b"", mk.encode()))), ()]), H._ctl(r, 0.25))
             elif x < 0.65:
-                a = ("reference", mid, ("ldap://" + mk,), None)
+                a = ("reference", mid, ("ldap://" + mk,), H._ctl(r, 0.25))
             else:
-                a = ("done", mid, r.choice([0, 4]), None, mk, None)
+                a = ("done", mid, r.choice([0, 4, 10]), None, mk, H._ctl(r, 0.25))
         else:
-            a = ("extended_response", mid, r.choice([None, "1.2.3", "1.3.6.1.4.1.1466.20037", gv.g_lookalike_oid(r, NOTICE_OID)]), mk.encode(), 0, None, mk, None)
+            a = ("extended_response", mid, r.choice([None, "1.2.3", "1.3.6.1.4.1.1466.20037", gv.g_lookalike_oid(r, NOTICE_OID)]), r.choice([mk.encode(), mk.encode(), b"", None]), 0, None, mk, H._ctl(r, 0.25))
         return self.api("s", a)
 
     def noise(self):
